@@ -216,3 +216,56 @@ def bec2_error_paths(rec, seams, orc, r, rcpts, C, n=6):
             for check in (True, False):
                 B2.rec_bec2_read(rec, s.getvalue(), list(pa.decs.values()) + list(pb.decs.values()), privs, orc, check, splice=1,
                                  label="three-blocks-outer-keys-differ")
+
+
+def run_threads(works, switch=1e-5, timeout=300):
+    """runs the given closures in as many threads at once, with a tiny interpreter switch interval; exceptions are returned"""
+    import threading, sys as _sys
+    errs = [None] * len(works)
+
+    def wrap(i):
+        try:
+            works[i]()
+        except BaseException as e:                             # noqa: BLE001
+            errs[i] = e
+    old = _sys.getswitchinterval()
+    _sys.setswitchinterval(switch)
+    try:
+        ths = [threading.Thread(target=wrap, args=(i,), daemon=True) for i in range(len(works))]
+        [t.start() for t in ths]
+        [t.join(timeout) for t in ths]
+    finally:
+        _sys.setswitchinterval(old)
+    return errs, [t.is_alive() for t in ths]
+
+
+def threaded_reads(rec, r, wd, nthreads=4, size=20000):
+    """Several threads read valid files under the SAME session key at the same time (one of them large, so that the reads overlap):
+    every read returns the file's content - the library keeps nothing per key or per process that concurrent calls could share"""
+    key = L.gen_key(r)
+    files = [L.Bf3File({"n": str(j)}, [L.mk_comp({0x10: bytes([j])}, bytes((j + k * 7) % 256 for k in range(size if j == 0 else 300 + j))),
+                                      L.mk_comp({0xC3: b"\x03", 0xC2: b"\x02"}, bytes((3 * j + k) % 255 + 1 for k in range(100 + j)), 100 + j, True)])
+             for j in range(nthreads)]
+    texts, auths = [], []
+    for f in files:
+        s = io.StringIO()
+        f.write_file(s, key)
+        texts.append(s.getvalue())
+        auths.append(L.proj_file(f))
+    recs = [L.Rec() for _ in range(nthreads)]
+
+    def mk(i):
+        def work():
+            for rep_ in range(3):
+                j = (i + rep_) % nthreads
+                L.rec_read(recs[i], texts[j], key, True, False, wd, auth=auths[j], threaded=1)
+        return work
+    run_threads([mk(i) for i in range(nthreads)])
+    n = 0
+    for rr in recs:
+        for ev in rr.events:
+            ev.pop("tid", None)
+            ev["_cost"] = 1 + len(ev["text"]) // 2000
+            rec.add(ev)
+            n += 1
+    return n
